@@ -18,12 +18,13 @@ def mon_requests(tr, sc):
     fedsub = {}           # id -> codes of the last SUBACK fed for it
     inbuf = b""
     plans, hs_need = [], 0      # queued dial replies; CONNACK bytes the handshake still takes from the stream
+    live, prebytes = False, b""
     for i, (op, lines) in enumerate(tr):
         f = op.split()
         if f and f[0] == "dial":
             plans.append(len(SC.unhex(f[2])) if f[1] == "ok" and len(f) > 2 else ("block" if f[1] == "block" else None))
         if f and f[0] == "brk":
-            plans = []
+            plans, prebytes = [], b""
         if f and f[0] == "adopt":
             pending, sub_id = {}, {}
         if f and f[0] == "call" and "noclient" not in lines:
@@ -35,6 +36,9 @@ def mon_requests(tr, sc):
                         inbuf = b""
                     continue
                 data = SC.unhex(a)
+                if not live:
+                    prebytes += data      # handed to the connection that is dialled next
+                    continue
                 take = min(hs_need, len(data))
                 hs_need -= take
                 inbuf += data[take:]
@@ -46,8 +50,9 @@ def mon_requests(tr, sc):
                         fedsub[d["id"]] = list(d["body"][2:])
         for l in lines:
             p = l.split()
-            if l.startswith("ev close"):
+            if l.startswith("ev close") or (l.startswith("rs err ") and not l.startswith("rs err store")):
                 inbuf = b""
+                live = False
             if l.startswith("ev dial fail"):
                 while plans and plans[0] == "block":
                     plans.pop(0)
@@ -58,6 +63,16 @@ def mon_requests(tr, sc):
                     plans.pop(0)
                 n = plans.pop(0) if plans else 4
                 hs_need = max(0, 4 - (n if n is not None else 4))
+                live = True
+                take = min(hs_need, len(prebytes))
+                hs_need -= take
+                inbuf, prebytes = prebytes[take:], b""
+                fr, rest, bad = mq.frames(inbuf)
+                inbuf = b"" if bad else rest
+                for pk in fr:
+                    if pk[0] == 0x90 and len(pk) >= 5:
+                        d = mq.parse(pk)
+                        fedsub[d["id"]] = list(d["body"][2:])
             if l.startswith("ev w ") and f and f[0] == "call" and f[2] == "sub":
                 for d in w.add(i, p[2], SC.unhex(p[3])):
                     if d["name"] == "subscribe":
@@ -82,6 +97,33 @@ def mon_requests(tr, sc):
                         wcls = "ok" if not want else "suberr:" + ",".join(x.hex() if x else "-" for x in want)
                         if cls != wcls:
                             out.append(("own-response:wrong", "Subscribe %s got `%s`, the SUBACK for its identifier says `%s`" % (p[1], cls, wcls)))
+    # a request is told when its connection is lost: once a later connection has been set up, nothing written on an older one still waits
+    nconn, where, waiting = 0, {}, {}
+    for i, (op, lines) in enumerate(tr):
+        f = op.split()
+        if f and f[0] in ("adopt", "init"):
+            where, waiting = {}, {}
+        dialled = False
+        for l in lines:
+            p = l.split()
+            if l.startswith("ev dial ok"):
+                nconn += 1
+                dialled = True
+            elif l.startswith("ev w ") and f and f[0] == "call" and len(f) > 2:
+                head = {"ping": ("c0",), "sub": ("82",), "unsub": ("a2",)}.get(f[2], ())
+                if head and p[3].startswith(head):
+                    where[f[1]] = int(p[2])
+            elif l.startswith("blocked ") and f and f[0] == "call" and p[1] in where:
+                waiting[p[1]] = where[p[1]]
+            elif l.startswith("ret "):
+                waiting.pop(p[1], None)
+        if dialled:
+            old = sorted(t for t, c in waiting.items() if c < nconn - 1)
+            if old and not any(l.startswith(("unsupported", "stalled", "hang", "dead after")) for l in lines):
+                out.append(("lost-connection-untold", "request(s) %s were written on connection %d and still wait although connection %d has been set up since"
+                            % (old, waiting[old[0]], nconn - 1)))
+                for t in old:
+                    waiting.pop(t)
     # the epilogue closed the client: nothing may be left waiting
     if sc and sc[-1] == "#epilogue" or any(o == "close" for o in sc[-4:]):
         if pending:
